@@ -137,6 +137,25 @@ def print_assumptions(ctx, spec):
             pass
 
 
+def coqchk(ctx, spec):
+    """thorough tier: the independent checker re-checks the property's .vo and everything it
+    depends on, and must report no axioms"""
+    if not spec.get("theorems"):
+        return
+    p = sh(["coqchk", "-silent", "-o", "-Q", os.path.join(COQ, "theories"), "BioSeq",
+            "-Q", os.path.join(COQ, "properties"), "BioSeqProps", "BioSeqProps.%s" % ctx.pid],
+           cwd=COQ, timeout=1800, check=False)
+    ctx.obligations += 1
+    out = p.stdout + p.stderr
+    m = re.search(r"\* Axioms:\s*(.*?)\n\s*\n", out, re.S)
+    if p.returncode == 0 and m and m.group(1).strip() == "<none>":
+        ctx.discharged += 1
+        ctx.notes.append("coqchk: Axioms <none>")
+    else:
+        ctx.violation("coqchk does not accept the property file or reports axioms",
+                      {"coqchk": out[-2500:]}, False)
+
+
 # ---------------------------------------------------------------- instances on regenerated tables
 _real_done = {}
 
@@ -194,6 +213,9 @@ def instances(ctx, spec, profile):
     wi = 0
     for i, (o, v) in enumerate(zip(obs, vals)):
         ctx.obligations += 1 + len(o.get("lift", []))
+        ctx.evaluations += o.get("sweep", 0)
+        if o.get("sweep"):
+            ctx.distinct.add(hash((o["name"], profile)))
         w = None
         if o.get("witness"):
             w = evals[wi] if wi < len(evals) else None
@@ -384,6 +406,8 @@ def run_check(pid, tier, seed):
     coq_make()
     hygiene(ctx)
     print_assumptions(ctx, spec)
+    if tier == "thorough":
+        coqchk(ctx, spec)
     build_ok = True
     for profile in PROFILES:
         ok, msg = build_harness(profile)
